@@ -23,6 +23,7 @@
 #include <cstring>
 #include <exception>
 #include <new>
+#include <optional>
 #include <type_traits>
 #include <utility>
 
@@ -115,6 +116,20 @@ unifex::inplace_stop_token tag_invoke(unifex::tag_t<unifex::get_stop_token>, con
 
 bool tc(LeafOp<Rcv>* op);   // try_complete + bookkeeping
 
+// The `completed` bit of cancellable's state_ as it is at the first statement of the stop() hook.  No
+// other thread can have run since the fetch_or that decided the call (the scheduler switches only
+// before atomic operations and at rt::point), so this is the value that fetch_or observed: the hook
+// must only be called for an operation whose completion nobody has claimed yet.  Plain read (memcpy),
+// hence no scheduling point.
+template <typename NestedOp>
+bool claimed_at_call(NestedOp* self) {
+  using ops = unifex::_cancellable::_op<NestedOp>;
+  auto* ns = reinterpret_cast<typename ops::non_stop_type*>(self);
+  unsigned char b;
+  std::memcpy(&b, reinterpret_cast<const unsigned char*>(&ns->state_), 1);
+  return (b & ops::completed) != 0;
+}
+
 template <typename R>
 struct LeafOp {
   R rcv;
@@ -140,8 +155,10 @@ struct LeafOp {
 
   void stop() noexcept {
     World* w = g_w;
+    const bool claimed = !w->op_destroyed && claimed_at_call(this);
     rt::point("hook-entry");   // the call itself is not atomic with the fetch_or that decided it
-    rt::obs("hook.stop");
+    rt::obs(claimed ? "hook.stop claimed" : "hook.stop");
+    if (claimed) rt::fail("stop() hook called although try_complete() had already claimed the completion");
     if (w->op_destroyed) { rt::fail("stop() hook ran on a completed operation"); return; }
     if (magic != MAGIC) rt::fail("stop() hook sees a corrupted nested operation");
     if (w->completions > 0) rt::fail("stop() hook ran on a completed operation");
@@ -431,6 +448,41 @@ struct World {
   }
 
   // T1: the thread that owns the watcher (the tail of a start() function)
+  // T1 variant: the guard returned by alive() is MOVED into a longer-lived object (an optional, as a
+  // completion context would hold it); the moved-from guard dies first, the real holder works on the
+  // owner and releases later.
+  void watcher_thread_move() {
+    std::optional<canary::guard> held;
+    bool truthy;
+    {
+      auto g = w->alive();
+      truthy = static_cast<bool>(g);
+      rt::obs("alive %d", truthy ? 1 : 0);
+      if (truthy) {
+        guard_held = true;
+        if (owner_destroyed) rt::fail("alive() truthy although the canary is destroyed");
+      } else if (!cdtor_begun) {
+        rt::fail("alive() falsy although the canary's destructor has not begun");
+      }
+      held.emplace(std::move(g));
+      if (static_cast<bool>(*held) != truthy) rt::fail("moved-to guard lost the truth value");
+      if (static_cast<bool>(g)) rt::fail("moved-from guard is still truthy");
+    }   // ~guard of the moved-from object: must not release anything
+    if (truthy) {
+      rt::obs("guard.moved");
+      rt::point("guarded-work");
+      if (owner_destroyed || owner->magic != MAGIC) rt::fail("canary's owner destroyed while a guard was held");
+      else owner->payload++;
+      guard_held = false;
+    }
+    held.reset();   // ~guard of the real holder
+    if (truthy) rt::obs("guard.release");
+    w->~watcher();
+    std::memset(watcher_storage, POISON, sizeof watcher_storage);
+    watcher_destroyed = true;
+    rt::obs("wdtor.end");
+  }
+
   void watcher_thread(bool use_alive) {
     if (use_alive) {
       bool truthy;
@@ -475,9 +527,9 @@ struct World {
   }
 };
 
-void run(bool use_alive) {
+void run(bool use_alive, bool move_guard = false) {
   World w;
-  int t1 = rt::spawn([&] { w.watcher_thread(use_alive); });
+  int t1 = rt::spawn([&] { if (move_guard) w.watcher_thread_move(); else w.watcher_thread(use_alive); });
   int t2 = rt::spawn([&] { w.canary_thread(); });
   rt::join(t1); rt::join(t2);
   w.finish();
@@ -587,8 +639,10 @@ void run() {
               w.pending.store(true);
               w.a_go.store(1);
             } else if constexpr (event.is_stop) {
+              const bool claimed = !w.op_destroyed && can::claimed_at_call(self);
               rt::point("hook-entry");
-              rt::obs("hook.stop");
+              rt::obs(claimed ? "hook.stop claimed" : "hook.stop");
+              if (claimed) rt::fail("stop() hook called although try_complete() had already claimed the completion");
               if (w.op_destroyed) { rt::fail("stop() hook ran on a completed operation"); return; }
               if (w.completions > 0) rt::fail("stop() hook ran on a completed operation");
               if (++w.hook_runs > 1) rt::fail("stop() hook ran twice");
@@ -679,6 +733,8 @@ SCENARIO(d_sync)   { doc::run(true, false, false); }
 // ---- canary: T0 constructs, T1 = watcher's thread (alive / guard / ~watcher), T2 = ~canary ----------
 SCENARIO(k_guard) { kan::run(true); }
 SCENARIO(k_dtors) { kan::run(false); }
+// the guard is moved into a longer-lived holder; the moved-from guard is destroyed first
+SCENARIO(k_move)  { kan::run(true, true); }
 
 // ---- stop_on_request: T0 connects+starts; stoppers on the receiver's (0) / the external (1) source ----
 SCENARIO(s_two) {
